@@ -321,18 +321,21 @@ func CamelCase(s string) string {
 // product profile disables a field.
 func (w *Workbook) WriteDisabled(path string, disable map[int]bool) error {
 	sheet := string(w.files[w.msgsSheet])
-	lines := make([]int, 0, len(disable))
+	re := regexp.MustCompile(`<(?:\w+:)?c [^>]*\br="P(\d+)"(?:[^>]*/>|[^>]*>.*?</(?:\w+:)?c>)`)
+	removed := map[int]bool{}
+	sheet = re.ReplaceAllStringFunc(sheet, func(m string) string {
+		sub := re.FindStringSubmatch(m)
+		l, _ := strconv.Atoi(sub[1])
+		if disable[l] {
+			removed[l] = true
+			return ""
+		}
+		return m
+	})
 	for l := range disable {
-		lines = append(lines, l)
-	}
-	sort.Ints(lines)
-	for _, l := range lines {
-		re := regexp.MustCompile(`<c r="P` + strconv.Itoa(l) + `"(?:[^>]*/>|[^>]*>.*?</c>)`)
-		loc := re.FindStringIndex(sheet)
-		if loc == nil {
+		if !removed[l] {
 			return fmt.Errorf("row %d has no EXAMPLE cell to remove", l)
 		}
-		sheet = sheet[:loc[0]] + sheet[loc[1]:]
 	}
 	var buf bytes.Buffer
 	zw := zip.NewWriter(&buf)
